@@ -49,6 +49,9 @@ const preludeDecls = `(set-logic ALL)
 (declare-fun expval_val (Int Int) Int)
 (declare-fun expat (Int Int) Int)
 (declare-fun errstr (Int Int) Int)
+(declare-fun klkey (Int) Int)
+(declare-fun prov (Int Int Int) Bool)
+(declare-fun errprov (Int Int Int) Bool)
 (declare-fun fmtuint (Int Int) Int)
 (declare-fun fmtuint_inv (Int) Int)
 (declare-fun bvxor64 (Int Int) Int)
@@ -171,6 +174,99 @@ func (e *Engine) renderPath(lines []Line, covers bool, claim func(*Obligation) b
 		return "", nil
 	}
 	return e.withPrelude(b.String(), covers), obs
+}
+
+// renderBatchPath renders a path script in which every run of consecutive checks is asked as ONE question
+// (the conjunction of the goals). Most paths satisfy all their postconditions, so this answers them in one query.
+func (e *Engine) renderBatchPath(lines []Line, claim func(*Obligation) bool) (string, [][]*Obligation) {
+	var b strings.Builder
+	var universals []string
+	var batches [][]*Obligation
+	var pending []*Obligation
+	flush := func() {
+		if len(pending) == 0 {
+			return
+		}
+		fmt.Fprintf(&b, "(echo \"batch:%d\")\n(push 1)\n", len(batches))
+		var disj []string
+		for _, ob := range pending {
+			subs := splitGoal(ob.Goal, &e.counter)
+			if len(subs) > 24 {
+				subs = []subgoal{{concl: ob.Goal}}
+			}
+			for _, sg := range subs {
+				for _, d := range sg.skolems {
+					b.WriteString(d)
+					b.WriteByte('\n')
+				}
+				var hypUniv []string
+				for _, h := range sg.hyps {
+					hypUniv = append(hypUniv, topUniversals(h)...)
+				}
+				if len(sg.names) > 0 && len(sg.names) <= 6 {
+					n := 0
+					for _, u := range universals {
+						for _, inst := range instantiateAt(u, sg.names) {
+							if n > 400 {
+								break
+							}
+							fmt.Fprintf(&b, "(assert %s)\n", inst)
+							n++
+						}
+					}
+					hy := and(sg.hyps...)
+					for _, u := range hypUniv {
+						for _, inst := range instantiateAt(u, sg.names) {
+							fmt.Fprintf(&b, "(assert (=> %s %s))\n", hy, inst)
+						}
+					}
+				}
+				disj = append(disj, and(append(append([]string{}, sg.hyps...), not(sg.concl))...))
+			}
+		}
+		fmt.Fprintf(&b, "(assert %s)\n(check-sat)\n(pop 1)\n", or(disj...))
+		batches = append(batches, pending)
+		pending = nil
+	}
+	for _, l := range lines {
+		switch l.Kind {
+		case lDecl:
+			flush()
+			b.WriteString(l.Text)
+			b.WriteByte('\n')
+		case lAssert:
+			flush()
+			fmt.Fprintf(&b, "(assert %s)\n", l.Text)
+			universals = append(universals, topUniversals(l.Text)...)
+		case lCheck:
+			if l.Ob.Expect == "sat" || !claim(l.Ob) {
+				continue
+			}
+			pending = append(pending, l.Ob)
+		}
+	}
+	flush()
+	if len(batches) == 0 {
+		return "", nil
+	}
+	return e.withPrelude(b.String(), false), batches
+}
+
+func parseBatchResults(out string) map[int]string {
+	res := map[int]string{}
+	cur := -1
+	for _, l := range strings.Split(out, "\n") {
+		l = strings.Trim(strings.TrimSpace(l), "\"")
+		if strings.HasPrefix(l, "batch:") {
+			fmt.Sscanf(l, "batch:%d", &cur)
+			continue
+		}
+		if cur >= 0 && (l == "sat" || l == "unsat" || l == "unknown" || strings.HasPrefix(l, "timeout")) {
+			res[cur] = l
+			cur = -1
+		}
+	}
+	return res
 }
 
 // topUniversals lists the universally quantified conjuncts of an asserted formula.
@@ -327,10 +423,70 @@ func (e *Engine) solveAll(want func(*Obligation) bool, quickMs, slowMs int, work
 	var jobs []*job
 	claimed := map[*Obligation]bool{}
 	owner := map[*Obligation][]Line{}
+	// pass 1: one query per run of consecutive obligations
+	{
+		type bjob struct {
+			text    string
+			batches [][]*Obligation
+		}
+		var bjobs []*bjob
+		seen := map[*Obligation]bool{}
+		for _, lines := range e.scripts {
+			text, batches := e.renderBatchPath(lines, func(ob *Obligation) bool {
+				if seen[ob] || !want(ob) || ob.Status != "" {
+					return false
+				}
+				seen[ob] = true
+				return true
+			})
+			if len(batches) > 0 {
+				bjobs = append(bjobs, &bjob{text, batches})
+			}
+		}
+		var bwg sync.WaitGroup
+		bch := make(chan *bjob)
+		var bmu sync.Mutex
+		for w := 0; w < workers; w++ {
+			bwg.Add(1)
+			go func() {
+				defer bwg.Done()
+				for j := range bch {
+					t0 := time.Now()
+					out, _ := runSolver(solvers[0], j.text, quickMs, time.Duration(len(j.batches)*quickMs+5000)*time.Millisecond)
+					res := parseBatchResults(out)
+					dt := time.Since(t0).Seconds()
+					n := 0
+					for _, bt := range j.batches {
+						n += len(bt)
+					}
+					bmu.Lock()
+					for i, bt := range j.batches {
+						if res[i] == "unsat" {
+							for _, ob := range bt {
+								ob.Status, ob.Solver, ob.Secs = "discharged", solvers[0].name, dt/float64(n)
+							}
+						}
+					}
+					bmu.Unlock()
+				}
+			}()
+		}
+		if d := os.Getenv("GOVC_DUMPALL"); d != "" {
+			_ = os.MkdirAll(d, 0o755)
+			for i, j := range bjobs {
+				_ = os.WriteFile(filepath.Join(d, fmt.Sprintf("batch%03d_%s.smt2", i, safeName(j.batches[0][0].Fn))), []byte(j.text), 0o644)
+			}
+		}
+		for _, j := range bjobs {
+			bch <- j
+		}
+		close(bch)
+		bwg.Wait()
+	}
 	for _, lines := range e.scripts {
 		for _, covers := range []bool{false, true} {
 			text, obs := e.renderPath(lines, covers, func(ob *Obligation) bool {
-				if claimed[ob] || !want(ob) {
+				if claimed[ob] || !want(ob) || ob.Status != "" {
 					return false
 				}
 				claimed[ob] = true
@@ -348,6 +504,7 @@ func (e *Engine) solveAll(want func(*Obligation) bool, quickMs, slowMs int, work
 	var wg sync.WaitGroup
 	ch := make(chan *job)
 	var mu sync.Mutex
+	failedNames := map[string]int{}
 	for w := 0; w < workers; w++ {
 		wg.Add(1)
 		go func() {
@@ -380,7 +537,22 @@ func (e *Engine) solveAll(want func(*Obligation) bool, quickMs, slowMs int, work
 				}
 				mu.Unlock()
 				for _, ob := range retry {
+					mu.Lock()
+					already := failedNames[ob.Name]
+					mu.Unlock()
+					if already >= 2 {
+						// the obligation already failed on other paths: do not spend the portfolio on every instance
+						mu.Lock()
+						ob.Status, ob.Solver = "failed", "not retried (already failed on another path)"
+						mu.Unlock()
+						continue
+					}
 					e.retryOne(owner[ob], ob, slowMs, scratch, &mu)
+					mu.Lock()
+					if ob.Status != "discharged" && ob.Status != "covered" {
+						failedNames[ob.Name]++
+					}
+					mu.Unlock()
 				}
 			}
 		}()
